@@ -1,11 +1,15 @@
 use crate::engine::Property;
 
 pub mod c05;
+pub mod c06;
+pub mod c07;
 pub mod c19;
 
 pub fn lookup(id: &str) -> Option<Property> {
     Some(match id {
         "C05" => c05::property(),
+        "C06" => c06::property(),
+        "C07" => c07::property(),
         "C19" => c19::property(),
         _ => return None,
     })
